@@ -35,7 +35,7 @@ from sa import facts
 from sa.cfg import cfg_of
 from sa.effects import Effects
 from sa.flow import flow_of, Expander
-from sa.model import walk_no_nested, src, unmangle
+from sa.model import walk_no_nested, src, unmangle, AnalysisError
 from sa.pat import match, same
 from typing import Dict, List, Optional, Set, Tuple
 from sa.cfg import Node
@@ -385,6 +385,18 @@ DEP = {'predecessors': ('_Task__predecessors', '_Task__successors'),
        'successors': ('_Task__successors', '_Task__predecessors')}
 ROOT = '_WBS__root'
 
+# the mutators of the property (anchors) - the closed set inside which relation-changing calls may stay
+MUTATORS_TASK = ['task.Task.parent.setter', 'task.Task.children.setter', 'task.Task.predecessors.setter',
+                 'task.Task.successors.setter', 'task.Task._attach', 'task.Task._detach', 'task.Task.__set_children',
+                 'task.Task.__floordiv__', 'task.Task.__lshift__', 'task.Task.__rshift__']
+MUTATORS_FACADE = ['task._ChildrenList.append', 'task._ChildrenList.remove', 'task._ChildrenList.insert',
+                   'task._ChildrenList.move', 'task._ChildrenList.sort', 'task._ChildrenList.reorder',
+                   'task._PredecessorsList.append', 'task._PredecessorsList.remove', 'task._SuccessorsList.append',
+                   'task._SuccessorsList.remove', 'task._TaskList.remove_all', 'task._ImmutableTaskList.__add__',
+                   'task._ImmutableTaskList.__lshift__', 'task._ImmutableTaskList.__rshift__']
+MUTATORS_WBS = ['wbs.WBS.roots.setter', 'wbs.WBS.remove', 'wbs.WBS.__remove', 'wbs.WBS.remove_all', 'wbs.WBS.__floordiv__']
+ALLM = MUTATORS_TASK + MUTATORS_FACADE + MUTATORS_WBS
+
 
 class A:
     """per run analysis state"""
@@ -425,7 +437,9 @@ class A:
     def is_owner(self, f, e):
         """`self.<owner field>` inside a facade class"""
         oa = self.owner_attr.get(f.cls)
-        return oa is not None and self.is_self_attr(f, e, oa)
+        if oa is None:
+            raise AnalysisError(f"owner field of facade class {f.cls} is unknown (constructor shape not recognised by C16.wiring)")
+        return self.is_self_attr(f, e, oa)
 
     def is_param(self, f, e, i):
         return isinstance(e, ast.Name) and len(f.params) > i and e.id == f.params[i]
@@ -435,12 +449,37 @@ class A:
         n = 0
         if any(x.func == f.qual for x in o.refuted + o.unknown):
             return 0        # the function is already reported: events its clauses did not get to are not `extra`
+        known = set(ALLM) | {'task._TaskList.remove'}
         for ev in self.events(f):
-            if not ev.used:
+            if not ev.used and ev.kind == 'call' and any(t is not None and t.qual not in known for t in ev.ci.targets):
+                n += 1
+                o.undecided(f, ev.node, ev.node, f"{what}: `{src(ev.node)[:80]}` changes relations through a helper this rule does "
+                                                 f"not follow")
+            elif not ev.used:
                 n += 1
                 o.refute(f, ev.node, ev.node, f"{what}: additional relation effect `{src(ev.node)[:80]}` next to the "
                                               f"documented one")
         return n
+
+    def opaque_helpers(self, f):
+        """relation-changing callees of f that are not documented primitives: helpers whose body the clauses do not follow"""
+        known = set(ALLM) | {'task._TaskList.remove'}
+        out = []
+        for ev in self.events(f):
+            if ev.kind == 'call':
+                for t in ev.ci.targets:
+                    if t is not None and t.qual not in known and t.name != '__init__' and \
+                            any(fld in REL_FIELDS for fld, _ in self.eff.writes_star(t)):
+                        out.append(t.qual)
+        return sorted(set(out))
+
+    def absent(self, o, f, node, construct, msg):
+        """a required effect was not found in f: a violation - unless f hands work to a helper the rule does not follow"""
+        h = self.opaque_helpers(f)
+        if h:
+            o.undecided(f, node, construct, msg + f" - but part of the work is done by {', '.join(h)}, which this rule does not follow")
+        else:
+            o.refute(f, node, construct, msg)
 
     def must_pass(self, o, f, evs, noop_nodes, what):
         """every accepted path (entry to a normal exit) meets one of the events, except the documented no-op exits"""
@@ -448,7 +487,7 @@ class A:
         cov = covered(cfg, [e.cn if isinstance(e, Ev) else e for e in evs])
         cov |= {n.id for n in noop_nodes if n is not None}
         if escaping_path(cfg, cov):
-            o.refute(f, f.node, what, f"{what}: some accepted path returns without performing the documented effect "
+            self.absent(o, f, f.node, what, f"{what}: some accepted path returns without performing the documented effect "
                                       f"(the effect is conditional or skipped)")
             return False
         return True
@@ -529,8 +568,14 @@ def wiring(a: A, ctx):
                     o.undecided(g, rets[0], rets[0], "publish callback of the children facade is not a method of the task")
                     continue
                 sts = facts.attr_stores(cbf)
-                if len(sts) == 1 and a.is_self_attr(cbf, sts[0][1], fld) and a.is_param(cbf, sts[0][2], 1):
+                cws = [w for w in a.eff.direct_writes(cbf) if w.field in REL_FIELDS]
+                if len(sts) == 1 and len(cws) == 1 and a.is_self_attr(cbf, sts[0][1], fld) and a.is_param(cbf, sts[0][2], 1):
                     o.site(cbf, sts[0][0], 'publish callback stores the list it is given')
+                elif not sts and len(cws) == 1 and cws[0].field == fld and a.is_self(cbf, cws[0].recv) and \
+                        _full_slice_store(a, cbf, cws[0]) and a.is_param(cbf, cws[0].node.value, 1):
+                    o.site(cbf, cws[0].node, 'publish callback copies the given contents into the shared list in place')
+                elif not sts and not cws:
+                    o.site(cbf, cbf.node, 'publish callback does nothing (the list object is shared, see shared_list_stays_shared)')
                 else:
                     o.refute(cbf, cbf.node, cbf.name, f"the publish callback does not store the given list into self.{unmangle(fld)}")
                     continue
@@ -559,7 +604,7 @@ def _single_store(a: A, o, f, prop, what):
             for e in others:
                 e.used = True
         else:
-            o.refute(f, f.node, what, f"{what}: no assignment of `{prop}`: the call has no effect")
+            a.absent(o, f, f.node, what, f"{what}: no assignment of `{prop}`: the call has no effect")
         return None
     if len(evs) > 1:
         o.undecided(f, evs[1].node, evs[1].node, f"{what}: several assignments of `{prop}`")
@@ -714,7 +759,6 @@ def delegation_links(a: A, ctx):
             t = f.params[1]
             ev = _single_store(a, o, f, rel, what)
             if ev is None:
-                wrong = [e for e in a.events(f) if e.kind == 'setter']
                 a.leftovers(o, f, what)
             else:
                 _link_append(a, o, f, ev, rel, t, what)
@@ -799,7 +843,7 @@ def _returns_param(a: A, o, f, i, what):
     if ok and any(p.ast is not None and not isinstance(p.ast, ast.Return) or p.kind == 'branch' for p in cfg.exit.pred):
         ok = False
     if not ok:
-        o.refute(f, f.node, f'{what} return', f"{what}: does not return its right operand `{f.params[i]}` on every path "
+        a.absent(o, f, f.node, f'{what} return', f"{what}: does not return its right operand `{f.params[i]}` on every path "
                                               f"(chains like `a >> b >> c` depend on it)")
     return ok
 
@@ -998,7 +1042,7 @@ def delegation_wbs(a: A, ctx):
         search = a.fn('wbs.WBS.__remove')
         calls = [e for e in a.events(f) if e.kind == 'call' and search in e.ci.targets]
         if not calls:
-            o.refute(f, f.node, what, f"{what}: does not run the recursive search")
+            a.absent(o, f, f.node, what, f"{what}: does not run the recursive search")
         for e in calls:
             e.used = True
             c = e.node
@@ -1019,7 +1063,7 @@ def delegation_wbs(a: A, ctx):
         rec = [e for e in a.events(f) if e.kind == 'call' and f in e.ci.targets]
         ok = True
         if not direct:
-            o.refute(f, f.node, what, f"{what}: never calls children.remove on the visited task")
+            a.absent(o, f, f.node, what, f"{what}: never calls children.remove on the visited task")
             ok = False
         for e in direct:
             e.used = True
@@ -1041,7 +1085,7 @@ def delegation_wbs(a: A, ctx):
                     o.undecided(f, c, atom, f"{what}: removal depends on a condition the rule does not know")
                     ok = False
         if not rec:
-            o.refute(f, f.node, 'recursion', f"{what}: does not descend into the children: only root tasks can be removed")
+            a.absent(o, f, f.node, 'recursion', f"{what}: does not descend into the children: only root tasks can be removed")
             ok = False
         for e in rec:
             e.used = True
@@ -1097,7 +1141,7 @@ def delegation_remove_all(a: A, ctx):
                 rem = [e for e in a.events(f) if e.kind == 'call' and e.name in ('__remove', 'remove') and isinstance(e.node, ast.Call)
                        and a.is_self(f, e.node.func.value)]
             if not rem:
-                o.refute(f, f.node, what, f"{what}: never removes a task through the single-task removal")
+                a.absent(o, f, f.node, what, f"{what}: never removes a task through the single-task removal")
                 a.leftovers(o, f, what)
                 continue
             good = True
@@ -1151,7 +1195,6 @@ def delegation_remove_all(a: A, ctx):
             okq = isinstance(it, ast.Call) and (a.is_self(f, it.func) if single else
                                                 (isinstance(it.func, ast.Attribute) and it.func.attr == 'tasks' and a.is_self(f, it.func.value)))
             if not okq:
-                t = norm_list(it)
                 o.undecided(f, rem[0].node, fo.iter, f"{what}: the removed tasks are not the result of the list query `{'self' if single else 'self.tasks'}(key, **kwargs)`")
                 a.leftovers(o, f, what)
                 continue
@@ -1318,7 +1361,7 @@ def children_setter(a: A, ctx):
                 o.undecided(f, w.node, w.node, "children setter edits its own list in a way the rule does not know")
                 bad = True
         if not clears and not bad:
-            o.refute(f, f.node, 'clear', "children setter never empties the old list: the given tasks are added to the old children "
+            a.absent(o, f, f.node, 'clear', "children setter never empties the old list: the given tasks are added to the old children "
                                          "instead of replacing them")
             bad = True
         if len(clears) > 1:
@@ -1363,7 +1406,7 @@ def children_setter(a: A, ctx):
                 continue
             rel.append(e)
         if not rel and not bad:
-            o.refute(f, f.node, 'release', "old children keep `self` as their parent although they are taken out of the list")
+            a.absent(o, f, f.node, 'release', "old children keep `self` as their parent although they are taken out of the list")
             bad = True
         if bad:
             a.leftovers(o, f, 'children setter')
@@ -1402,7 +1445,7 @@ def children_setter(a: A, ctx):
                 else:
                     good.append(e)
         if not sets:
-            o.refute(f, f.node, 're-parent', "children setter never assigns `v.parent = self` to the given tasks")
+            a.absent(o, f, f.node, 're-parent', "children setter never assigns `v.parent = self` to the given tasks")
             bad = True
         if bad:
             a.leftovers(o, f, 'children setter')
@@ -1473,7 +1516,7 @@ def dependency_setters(a: A, ctx):
             # (a) the stored list
             if len(stores) != 1:
                 if not stores:
-                    o.refute(f, f.node, 'store', f"{what}: never stores the new list into self.{unmangle(FLD)}")
+                    a.absent(o, f, f.node, 'store', f"{what}: never stores the new list into self.{unmangle(FLD)}")
                 else:
                     o.undecided(f, stores[1].node, stores[1].node, f"{what}: several stores of the list")
                 for e in stores:
@@ -1608,13 +1651,13 @@ def dependency_setters(a: A, ctx):
                 a.leftovers(o, f, what)
                 continue
             if not rem_ok:
-                o.refute(f, f.node, 'unlink', f"{what}: self is never removed from the {unmangle(MIR)} of the old elements: dropped "
+                a.absent(o, f, f.node, 'unlink', f"{what}: self is never removed from the {unmangle(MIR)} of the old elements: dropped "
                                               f"links survive on the mirror side")
             elif a.must_pass(o, f, [guard_anchor(cfg, e.cn, cfg.node_of(enclosing_for_binding(f, e.cn, e.w.recv.id))) for e in rem_ok],
                              [], what + ' (unlink old)'):
                 o.site(f, rem_ok[0].node, 'old elements: ' + src(rem_ok[0].node))
             if not add_ok:
-                o.refute(f, f.node, 'link', f"{what}: self is never appended to the {unmangle(MIR)} of the new elements")
+                a.absent(o, f, f.node, 'link', f"{what}: self is never appended to the {unmangle(MIR)} of the new elements")
             elif a.must_pass(o, f, [guard_anchor(cfg, e.cn, cfg.node_of(enclosing_for_binding(f, e.cn, e.w.recv.id))) for e in add_ok],
                              [], what + ' (link new)'):
                 o.site(f, add_ok[0].node, 'new elements: ' + src(add_ok[0].node))
@@ -1705,7 +1748,6 @@ def append_last(a: A, ctx):
                     o.undecided(f, w.node, w.node, f"parent setter edits a children list with `{w.kind[7:]}`")
                     bad = True
                 else:
-                    continue_frame = True      # other receivers: frame decides
                     e.used = False
             elif w.field == PA and a.is_self(f, w.recv) and w.kind == 'store':
                 e.used = True
@@ -1720,14 +1762,14 @@ def append_last(a: A, ctx):
         if bad:
             return
         if not adds:
-            o.refute(f, f.node, 'append', "parent setter never appends self to the new parent's children list")
+            a.absent(o, f, f.node, 'append', "parent setter never appends self to the new parent's children list")
             return
         if not rems:
-            o.refute(f, f.node, 'remove', "parent setter never removes self from the old parent's children list: the task ends up "
+            a.absent(o, f, f.node, 'remove', "parent setter never removes self from the old parent's children list: the task ends up "
                                           "under two parents")
             return
         if not sets:
-            o.refute(f, f.node, 'store', "parent setter never stores the new parent")
+            a.absent(o, f, f.node, 'store', "parent setter never stores the new parent")
             return
         # removal: only guarded by `old parent is not None` and `self in old.__children`; before the store and the append
         for e in rems:
@@ -1969,6 +2011,16 @@ def _none_state(atoms, name):
     return st
 
 
+def _full_slice_store(a: A, f, w) -> bool:
+    """`self._list[:] = <expr>`: the contents of the shared list object are replaced in place"""
+    n = w.node
+    if w.kind != 'subscript-store' or not isinstance(n, ast.Assign) or len(n.targets) != 1:
+        return False
+    t = n.targets[0]
+    return isinstance(t, ast.Subscript) and isinstance(t.slice, ast.Slice) and t.slice.lower is None and \
+        t.slice.upper is None and t.slice.step is None
+
+
 def _publish_ok(a: A, o, f, e, what):
     """the publish callback receives the facade's current list"""
     c = e.node
@@ -2024,7 +2076,7 @@ def move_index(a: A, ctx):
                 o.undecided(f, e.node, e.node, f"{what}: edits the list with `{e.w.kind}`")
                 return
         if not inss:
-            o.refute(f, f.node, 'insert', f"{what}: never inserts the moved task")
+            a.absent(o, f, f.node, 'insert', f"{what}: never inserts the moved task")
             return
         seen_anchor = {}
         for e in inss:
@@ -2093,12 +2145,10 @@ def move_index(a: A, ctx):
             seen_anchor.setdefault(anchor.id, []).append(e)
         for nm in (B, AF):
             if nm not in seen_anchor:
-                o.refute(f, f.node, f'insert for {nm}', f"{what}: no insertion for `{nm}=`: move(..., {nm}=x) removes the task / does nothing")
+                a.absent(o, f, f.node, f'insert for {nm}', f"{what}: no insertion for `{nm}=`: move(..., {nm}=x) removes the task / does nothing")
                 return
         # every iteration inserts
-        hdrs = {id(enclosing_for_binding(f, e.cn, e.node.args[1].id)) for e in inss}
         anchors = [guard_anchor(cfg, e.cn, cfg.node_of(enclosing_for_binding(f, e.cn, e.node.args[1].id))) for e in inss]
-        rem_first = [r.cn for r in rems]
         if not a.must_pass(o, f, anchors, [], what):
             return
         for e in seen_anchor[B][:1] + seen_anchor[AF][:1]:
@@ -2164,7 +2214,7 @@ def sort_stable(a: A, ctx):
                                             f"descending sort must be `reverse=reverse` of the single stable sort")
                 bad = True
                 continue
-            if w.kind == 'store' and isinstance(w.node, ast.Assign):
+            if (w.kind == 'store' and isinstance(w.node, ast.Assign)) or _full_slice_store(a, f, w):
                 v = a.xp(f, w.node.value, e.cn)
                 call = v
                 if any(isinstance(n, ast.Call) and getattr(n.func, 'id', '') == 'reversed' for n in ast.walk(v)):
@@ -2186,7 +2236,7 @@ def sort_stable(a: A, ctx):
                     o.refute(f, w.node, srcl, f"{what}: sorts `{src(srcl)[:60]}` instead of exactly the tasks of the list")
                     bad = True
                     continue
-                inplace = False
+                inplace = _full_slice_store(a, f, w)
             elif w.kind == 'mutate:sort':
                 call = w.node
                 if call.args:
@@ -2229,7 +2279,7 @@ def sort_stable(a: A, ctx):
             a.leftovers(o, f, what)
             return
         if not sorts:
-            o.refute(f, f.node, 'sorted', f"{what}: the list is never sorted")
+            a.absent(o, f, f.node, 'sorted', f"{what}: the list is never sorted")
             return
         for e, inplace, kk in sorts:
             if not inplace and _reaches_exit_avoiding(cfg, e.cn, {p.cn.id for p in pubs}):
@@ -2322,7 +2372,7 @@ def reorder_effect(a: A, ctx):
         stores = []
         for e in ws:
             e.used = True
-            if e.w.kind == 'store' and isinstance(e.w.node, ast.Assign):
+            if (e.w.kind == 'store' and isinstance(e.w.node, ast.Assign)) or _full_slice_store(a, f, e.w):
                 stores.append(e)
             elif e.w.kind.startswith('mutate:'):
                 o.refute(f, e.node, e.node, f"{what}: `{src(e.node)[:70]}` edits the LIVE children list (shared with the task) while the new "
@@ -2334,7 +2384,7 @@ def reorder_effect(a: A, ctx):
                 return
         if len(stores) != 1:
             if not stores:
-                o.refute(f, f.node, 'store', f"{what}: the new order is never stored")
+                a.absent(o, f, f.node, 'store', f"{what}: the new order is never stored")
             else:
                 o.undecided(f, stores[1].node, stores[1].node, f"{what}: several stores")
             return
@@ -2507,12 +2557,12 @@ def reorder_effect(a: A, ctx):
         if path_atoms(a, f, store.cn):
             o.refute(f, store.node, store.node, f"{what}: the new order is stored only conditionally")
             return
-        if _reaches_exit_avoiding(cfg, store.cn, {p.cn.id for p in pubs}):
+        if not _full_slice_store(a, f, store.w) and _reaches_exit_avoiding(cfg, store.cn, {p.cn.id for p in pubs}):
             o.refute(f, store.node, 'publish', f"{what}: the new list object is not handed to the owner (`self.__setter(self._list)` "
                                                f"missing): the task's children keep the old order")
             return
         if a.must_pass(o, f, [store], [], what):
-            o.site(f, store.node, 'stored and published')
+            o.site(f, store.node, 'stored in place' if _full_slice_store(a, f, store.w) else 'stored and published')
         a.leftovers(o, f, what)
     ctx.guarded(o, run)
 
@@ -2535,7 +2585,7 @@ def insert_index(a: A, ctx):
                (e.kind == 'call' and e.name == 'append' and isinstance(e.node, ast.Call) and a.is_self(f, e.node.func.value))]
         if len(att) != 1:
             if not att:
-                o.refute(f, f.node, 'attach', f"{what}: the task is never attached to the owner (`task.parent = owner`)")
+                a.absent(o, f, f.node, 'attach', f"{what}: the task is never attached to the owner (`task.parent = owner`)")
             else:
                 o.undecided(f, att[1].node, att[1].node, f"{what}: several attach statements")
             return
@@ -2565,7 +2615,7 @@ def insert_index(a: A, ctx):
                 if ins:
                     o.undecided(f, ins[0].node, ins[0].node, f"{what}: positions the task by a raw list insert instead of move()")
                 else:
-                    o.refute(f, f.node, 'move', f"{what}: the task is attached (last) and never moved to the requested index")
+                    a.absent(o, f, f.node, 'move', f"{what}: the task is attached (last) and never moved to the requested index")
             else:
                 o.undecided(f, mv[1].node, mv[1].node, f"{what}: several move calls")
             return
@@ -2714,16 +2764,6 @@ def insert_index(a: A, ctx):
 # ====================================================================================================== frame
 @part
 def frame(a: A, ctx):
-    MUTATORS_TASK = ['task.Task.parent.setter', 'task.Task.children.setter', 'task.Task.predecessors.setter',
-                     'task.Task.successors.setter', 'task.Task._attach', 'task.Task._detach', 'task.Task.__set_children',
-                     'task.Task.__floordiv__', 'task.Task.__lshift__', 'task.Task.__rshift__']
-    MUTATORS_FACADE = ['task._ChildrenList.append', 'task._ChildrenList.remove', 'task._ChildrenList.insert',
-                       'task._ChildrenList.move', 'task._ChildrenList.sort', 'task._ChildrenList.reorder',
-                       'task._PredecessorsList.append', 'task._PredecessorsList.remove', 'task._SuccessorsList.append',
-                       'task._SuccessorsList.remove', 'task._TaskList.remove_all', 'task._ImmutableTaskList.__add__',
-                       'task._ImmutableTaskList.__lshift__', 'task._ImmutableTaskList.__rshift__']
-    MUTATORS_WBS = ['wbs.WBS.roots.setter', 'wbs.WBS.remove', 'wbs.WBS.__remove', 'wbs.WBS.remove_all', 'wbs.WBS.__floordiv__']
-    ALLM = MUTATORS_TASK + MUTATORS_FACADE + MUTATORS_WBS
     o = ctx.ob('frame', 'R9',
                "raw relation writes of every mutator hit only: self; the elements of the argument; the elements of the old "
                "list; the old parent; the new parent - and only the field documented for that receiver; relation-changing "
@@ -2806,8 +2846,8 @@ def frame(a: A, ctx):
                              and t.qual != 'task._TaskList.remove'
                              and any(fld in REL_FIELDS for fld, _ in a.eff.writes_star(t))]
                     if bad_t:
-                        o.refute(f, e.node, e.node, f"{f.name} calls {', '.join(bad_t)}, which changes task relations and is not one of "
-                                                    f"the documented primitives of this mutator set")
+                        o.undecided(f, e.node, e.node, f"{f.name} calls {', '.join(bad_t)}, which changes task relations and is not one of "
+                                                       f"the documented primitives of this mutator set: its effect is not followed")
                         ok = False
                         continue
                     recv = e.node.value if e.kind == 'setter' else (
@@ -2825,6 +2865,78 @@ def frame(a: A, ctx):
                 ok = False
             if ok:
                 o.site(f, f.node, f"{n} relation event(s) inside the frame")
+    ctx.guarded(o, run)
+
+
+# ====================================================================================================== shared list
+@part
+def shared_list(a: A, ctx):
+    o = ctx.ob('shared_list_stays_shared', 'R1',
+               "the children list OBJECT of a task is created once and shared with every facade handed out: no mutator rebinds "
+               "`Task.__children` or a children facade's `_list` to another list (contents are replaced in place: .clear(), "
+               "`[:] = ...`, .sort()); the publish callback is only ever given that same object", floor=8)
+
+    def run(o):
+        prog = a.prog
+        FLD = '_Task__children'
+        cb = a.fn('task.Task.__set_children')
+        # (1) stores of Task.__children anywhere in the package
+        for f in list(prog.all_funcs()):
+            if f.module.name not in ('task', 'wbs'):
+                continue
+            for w in a.eff.direct_writes(f):
+                if w.field != FLD or w.kind != 'store':
+                    continue
+                if f.qual == 'task.Task.__init__':
+                    if isinstance(w.node, ast.Assign) and isinstance(w.node.value, ast.List) and not w.node.value.elts and a.is_self(f, w.recv):
+                        o.site(f, w.node, 'created once: ' + src(w.node))
+                    else:
+                        o.undecided(f, w.node, w.node, "constructor initialises the children list with something else than a new empty list")
+                    continue
+                if f.qual == cb.qual:
+                    v = w.node.value if isinstance(w.node, ast.Assign) else None
+                    if v is not None and a.is_self(f, w.recv) and a.is_param(f, a.xp(f, v), 1):
+                        o.site(f, w.node, 'publish callback stores the object it is given (checked below: always the shared one)')
+                    else:
+                        o.refute(f, w.node, w.node, "the publish callback stores a different list object than the one it is given "
+                                                    f"(`{src(w.node)}`): the task's children list is no longer the one the facades hold")
+                    continue
+                o.refute(f, w.node, w.node, f"{f.name} rebinds {unmangle(FLD)} to another list object (`{src(w.node)[:70]}`): every children "
+                                            f"facade handed out earlier (task.children, wbs.roots) keeps the old object; a later "
+                                            f"append/remove through it silently drops tasks and resets the order. Replace the contents in "
+                                            f"place (`.clear()`, `[:] = ...`)")
+        # (2) stores of `_list` in the facade classes: only the base constructor
+        for cls in ('_ImmutableTaskList', '_TaskList', '_ChildrenList'):
+            ci = prog.cls(cls)
+            for m in list(ci.methods.values()) + list(ci.getters.values()) + list(ci.setters.values()):
+                for w in a.eff.direct_writes(m):
+                    if w.field != LIST or not a.is_self(m, w.recv):
+                        continue
+                    if w.kind == 'store':
+                        if m.qual == 'task._ImmutableTaskList.__init__':
+                            continue        # judged by C16.wiring
+                        o.refute(m, w.node, w.node, f"{cls}.{m.name} rebinds `self._list` to a NEW list object (`{src(w.node)[:70]}`): the task "
+                                                    f"and the other facades keep the old object (or, after the publish callback, this facade's "
+                                                    f"siblings go stale). Replace the contents in place: `self._list[:] = ...`")
+                    elif _full_slice_store(a, m, w) or w.kind in ('mutate:sort', 'mutate:remove', 'mutate:insert', 'mutate:clear',
+                                                                  'mutate:reverse', 'mutate:append', 'mutate:extend', 'mutate:pop'):
+                        o.site(m, w.node, 'in place: ' + src(w.node)[:70])
+                    elif w.kind == 'subscript-store':
+                        o.site(m, w.node, 'in place (element / slice): ' + src(w.node)[:70])
+                    else:
+                        o.undecided(m, w.node, w.node, f"{cls}.{m.name} changes `_list` with `{w.kind}`")
+        # (3) every call of the publish callback hands over the facade's own `_list`
+        for m in prog.cls('_ChildrenList').methods.values():
+            for e in a.events(m):
+                if e.kind != 'publish':
+                    continue
+                c = e.node
+                v = resolve(m, c.args[0], e.cn)[0] if len(c.args) == 1 else None
+                if v is not None and a.is_self_attr(m, v, LIST):
+                    o.site(m, c, src(c))
+                else:
+                    o.refute(m, c, c, f"{m.name} hands `{src(c.args[0]) if c.args else ''}` to the publish callback: the task's children "
+                                      f"list becomes a different object than the one shared with the facades")
     ctx.guarded(o, run)
 
 
